@@ -242,6 +242,7 @@ var exactFlags = map[string]Flags{
 	"controller.(*DefaultFanController).RunInitializationSequence":         FInitSeq,
 	"controller.(*DefaultFanController).computePwmMapAutomatically":        FPwmMapSweep,
 	"controller.(*DefaultFanController).computePwmMap":                     FComputeMap,
+	"controller.(*DefaultFanController).computePwmMapLocked":               FComputeMap,
 	"controller.(*DefaultFanController).measureRpm":                        FMeasureRpm,
 	"controller.(*DefaultFanController).ensureNoThirdPartyIsMessingWithUs": FThirdParty,
 	"controller.(*DefaultFanController).setPwm":                            FSetPwm,
